@@ -117,6 +117,10 @@ func (c *Ctx) Expect(n int64) { atomic.AddInt64(&c.expected, n) }
 // reachable-state searches); the evidence says so.
 func (c *Ctx) NoExpect() { c.expOff = true }
 
+// NoExpectNote records why a sub-space has no closed-form cardinality; the
+// property then feeds Expect with counted numbers for that part.
+func (c *Ctx) NoExpectNote(s string) { c.Note("cardinality: " + s) }
+
 // Add accumulates a named integer coverage counter.
 func (c *Ctx) Add(key string, d int64) {
 	c.mu.Lock()
